@@ -173,8 +173,8 @@ class Contract:
     def cover(self, label, fn):
         self.covers.append((label, fn))
 
-    def invariant(self, loop: int, inv, variant=None, havoc_heap=(), func: Optional[str] = None):
-        self.loops[(func or self.target, loop)] = LoopSpec(inv, variant, havoc_heap)
+    def invariant(self, loop: int, inv, variant=None, havoc_heap=(), func: Optional[str] = None, elem=None):
+        self.loops[(func or self.target, loop)] = LoopSpec(inv, variant, havoc_heap, elem=elem)
 
     def bounded_loop(self, loop: int, k: int, func: Optional[str] = None):
         self.loops[(func or self.target, loop)] = LoopSpec(bounded=k)
